@@ -138,8 +138,14 @@ fn exec_line(line: &str) -> String {
     let parts: Vec<&str> = line.trim().split(' ').collect();
     match parts.as_slice() {
         ["resp", m, mh, _cap, _mb, segs, rds] => {
-            let reads = if let Some(sz) = rds.strip_prefix('B') {
-                resp::Reads::Drain(sz.parse().unwrap_or(8192))
+            let reads = if rds.starts_with('B') {
+                resp::Reads::Drain(resp::DRAIN_BYTES)
+            } else if rds.starts_with('W') {
+                resp::Reads::Drain(resp::DRAIN_WRITE_TO)
+            } else if rds.starts_with('S') {
+                resp::Reads::Drain(resp::DRAIN_SPLIT)
+            } else if rds.starts_with('Q') {
+                resp::Reads::Drain(resp::DRAIN_ERR_FOR_STATUS)
             } else if let Some(sz) = rds.strip_prefix('T') {
                 resp::Reads::Text(sz.parse().unwrap_or(8192))
             } else if *rds == "-" {
